@@ -110,6 +110,7 @@ def reader_streams(quick, seed):
         data = F.assemble(recs) if isinstance(recs, list) else recs
         if isinstance(recs, list):
             kw.setdefault("concat", concat_of(recs))
+            kw.setdefault("layout", [(k, a, b_) for (k, a, b_, _) in F.layout(recs)])
         S.append(dict(name=name, dec=dec, data=data, expect=expect, bounds=bounds(recs) if isinstance(recs, list) else [0, len(data)],
                       exact=exact, **kw))
 
@@ -252,6 +253,7 @@ def judge_reader(s, job, r, need, declared):
         fault = "trunc+" + kinds[0]
     base = {"side": "reader", "reader": name, "dec": s["dec"]["kind"], "fault": fault}
     base["cut_at_zero"] = bool(cut and trunc == 0)
+    base["cut_in"] = next((k for (k, a, b_) in s.get("layout", []) if cut and a <= trunc < b_), "")
     base["fault_class"] = "cut" if cut else "err" if "err" in kinds else "intr" if ("intr" in kinds or sc.get("intr_every")) else \
         "short" if (kinds or sc.get("chunk")) else "none"
     o = r["o"]
